@@ -18,9 +18,10 @@ def str (name : String) (s : String) : Option Bool :=
 def canonInt? (c : String) : Option Int :=
   if c == "-0" then some 0 else c.toInt?
 
-/-- number format `n<k>` accepts integers divisible by k (k ≥ 1) -/
+/-- number format `n<k>` accepts integers divisible by k (k ≥ 1); `f<k>` is the same predicate under a name that is ALSO a
+string format (the two registries are separate name spaces) -/
 def num (name : String) (canon : String) : Option Bool :=
-  if name.startsWith "n" then
+  if name.startsWith "n" || name.startsWith "f" then
     match (name.drop 1).toString.toNat? with
     | some k => if k == 0 then none else
       match canonInt? canon with
